@@ -47,6 +47,11 @@ func runReverse(c *Case) *Obs {
 		o.Note = "no reverse section"
 		return o
 	}
+	// the providers' clients use rpc/socket: their connections belong to this case (so that goroutines they leave
+	// behind are not taken for connections of a later case)
+	rs.pkg = "socket"
+	installHooks(rs)
+	defer uninstallHooks()
 	var ln net.Listener
 	var err error
 	for attempt := 0; attempt < 3; attempt++ {
